@@ -15,6 +15,21 @@ structure CInv (c : CState) (n : Nat) (U : Nat → List Nat) (L : List AIdx) : P
   units : ∀ (g : Nat) (cg : CGroup), c[g]? = some cg → cg.units = freeCount (U g) L g
   fracs : ∀ (g : Nat) (cg : CGroup), c[g]? = some cg →
     ∀ i, fracOf cg.fracs i = if heldBy L g i = 0 then 0 else FPU - heldBy L g i
+  /-- the keys of a fraction map are distinct (it is a map) -/
+  nodup : ∀ (g : Nat) (cg : CGroup), c[g]? = some cg → KeysNodup cg.fracs
+
+theorem keys_nodup_set {c : CState} {gidx : Nat} {cg cg' : CGroup}
+    (h : ∀ (g : Nat) (x : CGroup), c[g]? = some x → KeysNodup x.fracs) (hcg : c[gidx]? = some cg)
+    (hnew : KeysNodup cg'.fracs) :
+    ∀ (g : Nat) (x : CGroup), (c.set gidx cg')[g]? = some x → KeysNodup x.fracs := by
+  intro g x hx
+  by_cases hg : g = gidx
+  · subst hg
+    simp [lt_length_of_getElem? hcg] at hx
+    subst hx
+    exact hnew
+  · rw [List.getElem?_set_ne (by omega)] at hx
+    exact h g x hx
 
 theorem filter_length_update {l : List Nat} (hnd : l.Nodup) {i : Nat} (hi : i ∈ l) {p q : Nat → Bool}
     (hp : p i = true) (hq : q i = false) (hpq : ∀ j, j ≠ i → q j = p j) :
@@ -99,7 +114,8 @@ theorem removeEntry_cinv {c : CState} {n : Nat} {U : Nat → List Nat} {L : List
       · intro j hj
         rw [hother e.group j (fun h => hj h.2.symm)]
     have hupos : cg.units ≠ 0 := by omega
-    refine ⟨c.set e.group ⟨cg.units - 1, cg.fracs⟩, ?_, ?_, ?_, ?_⟩
+    refine ⟨c.set e.group ⟨cg.units - 1, cg.fracs⟩, ?_, ?_, ?_, ?_,
+      keys_nodup_set hc.nodup hcg (hc.nodup _ cg hcg)⟩
     · simp [CState.removeEntries, hf, hcg, hupos]
     · simp [hc.len]
     · intro g cg' hcg'
@@ -150,7 +166,7 @@ theorem removeEntry_cinv {c : CState} {n : Nat} {U : Nat → List Nat} {L : List
       have hupos : cg.units ≠ 0 := by omega
       have hlt' : fracOf cg.fracs e.index < e.fractions := by omega
       refine ⟨c.set e.group ⟨cg.units - 1, fset cg.fracs e.index (FPU + fracOf cg.fracs e.index - e.fractions)⟩,
-        ?_, ?_, ?_, ?_⟩
+        ?_, ?_, ?_, ?_, keys_nodup_set hc.nodup hcg (fset_keys_nodup (hc.nodup _ cg hcg) _ _)⟩
       · simp [CState.removeEntries, hf, CState.removeFractions, hcg, hlt', hupos]
       · simp [hc.len]
       · intro g cg' hcg'
@@ -191,7 +207,8 @@ theorem removeEntry_cinv {c : CState} {n : Nat} {U : Nat → List Nat} {L : List
           rw [beq_zero_false hL0, beq_zero_false (by omega)]
         · rw [hother e.group j (fun h => hj h.2)]
       have hge : ¬ fracOf cg.fracs e.index < e.fractions := by omega
-      refine ⟨c.set e.group ⟨cg.units, fset cg.fracs e.index (fracOf cg.fracs e.index - e.fractions)⟩, ?_, ?_, ?_, ?_⟩
+      refine ⟨c.set e.group ⟨cg.units, fset cg.fracs e.index (fracOf cg.fracs e.index - e.fractions)⟩, ?_, ?_, ?_, ?_,
+        keys_nodup_set hc.nodup hcg (fset_keys_nodup (hc.nodup _ cg hcg) _ _)⟩
       · simp [CState.removeEntries, hf, CState.removeFractions, hcg, hge]
       · simp [hc.len]
       · intro g cg' hcg'
@@ -312,7 +329,8 @@ theorem addEntry_cinv {c : CState} {n : Nat} {U : Nat → List Nat} {L : List AI
       · exact beq_zero_false holdne
       · intro j hj
         rw [hother e.group j (fun h => hj h.2.symm)]
-    refine ⟨c.set e.group ⟨cg.units + 1, cg.fracs⟩, ?_, ?_, ?_, ?_⟩
+    refine ⟨c.set e.group ⟨cg.units + 1, cg.fracs⟩, ?_, ?_, ?_, ?_,
+      keys_nodup_set hc.nodup hcg (hc.nodup _ cg hcg)⟩
     · simp [CState.addEntries, hf, hcg]
     · simp [hc.len]
     · intro g cg' hcg'
@@ -352,7 +370,7 @@ theorem addEntry_cinv {c : CState} {n : Nat} {U : Nat → List Nat} {L : List AI
           rw [hother e.group j (fun h => hj h.2.symm)]
       have hnew : fracOf cg.fracs e.index + e.fractions = FPU := by omega
       refine ⟨c.set e.group ⟨cg.units + 1, fset cg.fracs e.index (fracOf cg.fracs e.index + e.fractions - FPU)⟩,
-        ?_, ?_, ?_, ?_⟩
+        ?_, ?_, ?_, ?_, keys_nodup_set hc.nodup hcg (fset_keys_nodup (hc.nodup _ cg hcg) _ _)⟩
       · have h1 : FPU ≤ fracOf cg.fracs e.index + e.fractions := by omega
         have h2 : ¬ FPU ≤ fracOf cg.fracs e.index + e.fractions - FPU := by have := FPU_pos; omega
         simp [CState.addEntries, hf, CState.addFractions, hcg, h1, h2]
@@ -389,7 +407,8 @@ theorem addEntry_cinv {c : CState} {n : Nat} {U : Nat → List Nat} {L : List AI
           rw [beq_zero_false hL0, beq_zero_false holdne]
         · rw [hother e.group j (fun h => hj h.2)]
       have h1 : ¬ FPU ≤ fracOf cg.fracs e.index + e.fractions := by omega
-      refine ⟨c.set e.group ⟨cg.units, fset cg.fracs e.index (fracOf cg.fracs e.index + e.fractions)⟩, ?_, ?_, ?_, ?_⟩
+      refine ⟨c.set e.group ⟨cg.units, fset cg.fracs e.index (fracOf cg.fracs e.index + e.fractions)⟩, ?_, ?_, ?_, ?_,
+        keys_nodup_set hc.nodup hcg (fset_keys_nodup (hc.nodup _ cg hcg) _ _)⟩
       · simp [CState.addEntries, hf, CState.addFractions, hcg, h1]
       · simp [hc.len]
       · intro g cg' hcg'
@@ -598,11 +617,12 @@ theorem add_cinv {c : CState} {n : Nat} {U : Nat → List Nat} {O : List AIdx} {
 
 /-- the concise state of a sum pool with `free` free: one group, `free / FPU` units, `free % FPU` on pseudo-index 0 -/
 def SumCInv (c : CState) (free : Nat) : Prop :=
-  ∃ cg, c = [cg] ∧ cg.units = free / FPU ∧ ∀ i, fracOf cg.fracs i = if i = 0 then free % FPU else 0
+  ∃ cg, c = [cg] ∧ cg.units = free / FPU ∧ (∀ i, fracOf cg.fracs i = if i = 0 then free % FPU else 0) ∧
+    KeysNodup cg.fracs
 
 theorem sum_remove {c : CState} {free : Nat} {ra : RAlloc} (hc : SumCInv c free) (hidx : ra.indices = [])
     (hle : ra.amount ≤ free) : ∃ c', c.remove ra = .ok c' ∧ SumCInv c' (free - ra.amount) := by
-  obtain ⟨cg, rfl, hu, hf⟩ := hc
+  obtain ⟨cg, rfl, hu, hf, hnd⟩ := hc
   have hf0 := hf 0
   simp only [if_true] at hf0
   have h1 : ¬ cg.units < ra.amount / FPU := by rw [hu]; unfold FPU; omega
@@ -612,7 +632,7 @@ theorem sum_remove {c : CState} {free : Nat} {ra : RAlloc} (hc : SumCInv c free)
     by_cases hlt : free % FPU < ra.amount % FPU
     · have h2 : ¬ cg.units - ra.amount / FPU = 0 := by rw [hu]; unfold FPU at *; omega
       simp only [hlt, if_true, h2, if_false]
-      refine ⟨_, rfl, _, rfl, ?_, ?_⟩
+      refine ⟨_, rfl, _, rfl, ?_, ?_, fset_keys_nodup hnd _ _⟩
       · show cg.units - ra.amount / FPU - 1 = _
         rw [hu]; unfold FPU at *; omega
       · intro i
@@ -622,7 +642,7 @@ theorem sum_remove {c : CState} {free : Nat} {ra : RAlloc} (hc : SumCInv c free)
         · simp only [hi, if_true]; unfold FPU at *; omega
         · simp [hi, hf i]
     · simp only [hlt, if_false]
-      refine ⟨_, rfl, _, rfl, ?_, ?_⟩
+      refine ⟨_, rfl, _, rfl, ?_, ?_, fset_keys_nodup hnd _ _⟩
       · show cg.units - ra.amount / FPU = _
         rw [hu]; unfold FPU at *; omega
       · intro i
@@ -632,7 +652,7 @@ theorem sum_remove {c : CState} {free : Nat} {ra : RAlloc} (hc : SumCInv c free)
         · simp only [hi, if_true]; unfold FPU at *; omega
         · simp [hi, hf i]
   · simp only [hfr, if_false]
-    refine ⟨_, rfl, _, rfl, ?_, ?_⟩
+    refine ⟨_, rfl, _, rfl, ?_, ?_, hnd⟩
     · show cg.units - ra.amount / FPU = _
       rw [hu]; unfold FPU at *; omega
     · intro i
@@ -644,7 +664,7 @@ theorem sum_remove {c : CState} {free : Nat} {ra : RAlloc} (hc : SumCInv c free)
 
 theorem sum_add {c : CState} {free : Nat} {ra : RAlloc} (hc : SumCInv c free) (hidx : ra.indices = []) :
     ∃ c', c.add ra = .ok c' ∧ SumCInv c' (free + ra.amount) := by
-  obtain ⟨cg, rfl, hu, hf⟩ := hc
+  obtain ⟨cg, rfl, hu, hf, hnd⟩ := hc
   have hf0 := hf 0
   simp only [if_true] at hf0
   simp only [CState.add, hidx, List.isEmpty_nil, if_true]
@@ -653,7 +673,7 @@ theorem sum_add {c : CState} {free : Nat} {ra : RAlloc} (hc : SumCInv c free) (h
     by_cases hge : FPU ≤ free % FPU + ra.amount % FPU
     · have h2 : ¬ FPU ≤ free % FPU + ra.amount % FPU - FPU := by unfold FPU at *; omega
       simp only [hge, if_true, h2, if_false]
-      refine ⟨_, rfl, _, rfl, ?_, ?_⟩
+      refine ⟨_, rfl, _, rfl, ?_, ?_, fset_keys_nodup hnd _ _⟩
       · show cg.units + ra.amount / FPU + 1 = _
         rw [hu]; unfold FPU at *; omega
       · intro i
@@ -663,7 +683,7 @@ theorem sum_add {c : CState} {free : Nat} {ra : RAlloc} (hc : SumCInv c free) (h
         · simp only [hi, if_true]; unfold FPU at *; omega
         · simp [hi, hf i]
     · simp only [hge, if_false]
-      refine ⟨_, rfl, _, rfl, ?_, ?_⟩
+      refine ⟨_, rfl, _, rfl, ?_, ?_, fset_keys_nodup hnd _ _⟩
       · show cg.units + ra.amount / FPU = _
         rw [hu]; unfold FPU at *; omega
       · intro i
@@ -673,7 +693,7 @@ theorem sum_add {c : CState} {free : Nat} {ra : RAlloc} (hc : SumCInv c free) (h
         · simp only [hi, if_true]; unfold FPU at *; omega
         · simp [hi, hf i]
   · simp only [hfr, if_false]
-    refine ⟨_, rfl, _, rfl, ?_, ?_⟩
+    refine ⟨_, rfl, _, rfl, ?_, ?_, hnd⟩
     · show cg.units + ra.amount / FPU = _
       rw [hu]; unfold FPU at *; omega
     · intro i
